@@ -267,7 +267,8 @@ pub fn gen_case(rng: &mut Rng) -> GCase {
             let taken = sols.iter().any(|s: &Solution| s.predicate_to_solve.contract == c && s.state_mutations.iter().any(|m| m.key == k));
             if !muts.iter().any(|m| m.key == k) && !taken { muts.push(Mutation { key: k, value: if rng.chance(1, 5) { vec![] } else { vec![rng.range(1, 90)] } }); }
         }
-        let hints: Vec<(Key, Word)> = muts.iter().filter(|m| m.value.len() == 1).map(|m| (m.key.clone(), m.value[0])).collect();
+        // what a post-state read of a declared key must see: the proposed word, or 0 (= empty) for a proposed deletion
+        let hints: Vec<(Key, Word)> = muts.iter().filter(|m| m.value.len() <= 1).map(|m| (m.key.clone(), m.value.first().copied().unwrap_or(0))).collect();
         let b = if raw { gen_raw(rng) } else { gen_dag(rng, &contracts, &keys, &hints) };
         let paddr = essential_hash::content_addr(&b.pred);
         for (nd, pr) in b.pred.nodes.iter().zip(b.programs.iter()) { programs.push((nd.program_address.clone(), pr.0.clone())); }
